@@ -552,6 +552,9 @@ static int c07_main(int argc,char **argv){
         /* the exact duration (the first value out of range), its neighbours among the doubles, not-a-number */
         if(!strcmp(tok[2],"end"))t=ov_time_total(vf,-1); else if(!strcmp(tok[2],"endm"))t=nextafter(ov_time_total(vf,-1),-1e300);
         else if(!strcmp(tok[2],"endp"))t=nextafter(ov_time_total(vf,-1),1e300); else if(!strcmp(tok[2],"nan"))t=NAN;
+        /* le<k>q<n>: n quarter samples before the end of link k (the last fraction of a sample of a link) */
+        else if(!strncmp(tok[2],"le",2)){ int k=atoi(tok[2]+2),i; const char *qp=strchr(tok[2],'q'); int qn=qp?atoi(qp+1):1; t=0;
+          if(vf->seekable&&k>=0&&k<vf->links){ for(i=0;i<=k;i++)t+=ov_time_total(vf,i); t-=(double)qn/(4.0*(double)vf->vi[k].rate); } }
         ogg_int64_t oldpos=ov_pcm_tell(vf); int oldlink=(vf->seekable&&vf->ready_state>=STREAMSET)?vf->current_link:-1; int ohs=ov_halfrate_p(vf)>0;
         int on=(oldlink>=0&&vf->vi)?(vorbis_info_blocksize(vf->vi+oldlink,0)>>(1+ohs)):0; int och=(oldlink>=0&&vf->vi)?vf->vi[oldlink].channels:0;
         int pend=H->lap_valid||H->stale; /* the audio at the old position is itself still cross-faded, or the decoder is ahead of the position (after ov_crosslap) */
